@@ -207,6 +207,16 @@ def cli_cases(tier):
     out.append((dict(family="cli-geqdsk", geom="lsn", options=dict(nx_core=2, nx_sol=2, ny_inner_divertor=3,
                 ny_outer_divertor=3, ny_sol=4, nx_croe=3), label="cli-geqdsk misspelt key"), "reject"))
     out.append((dict(family="cli-circular", options=dict(nx=4, ny=8, bogus_key=True), label="cli-circular unknown key"), "reject"))
+    # every way a valid name degenerates into an invalid one: truncated at either end, an
+    # interior fragment, a single character, transposed letters, doubled letter, wrong case
+    base_g = dict(nx_core=2, nx_sol=2, ny_inner_divertor=3, ny_outer_divertor=3, ny_sol=4)
+    for bad in ("ny_inner", "_divertor", "boundary_guard", "n", "nx_cor", "nx_coer", "nx_corre", "NX_CORE",
+                "psinorm", "orthogona", "sol"):
+        out.append((dict(family="cli-geqdsk", geom="lsn", options=dict(base_g, **{bad: 3}),
+                         label="cli-geqdsk degenerate key %r" % bad), "reject"))
+    for bad in ("n", "r_inne", "_inner", "NX", "nxx", "oundary"):
+        out.append((dict(family="cli-circular", options=dict(nx=4, ny=8, **{bad: 3}),
+                         label="cli-circular degenerate key %r" % bad), "reject"))
     # shipped inputs: must generate
     out.append((dict(family="cli-circular", options=dict(), label="hypnotoad-circular defaults"), "ok"))
     # the geqdsk files these two were written for are not shipped (git-lfs pointers), so on
